@@ -281,22 +281,35 @@ def runDisk : Disk → List Op → List Out
   | _, [] => []
   | s, op :: ops => let (s', o) := s.step op; o :: runDisk s' ops
 
+/-- Final states (the runs above only keep the outputs). -/
+def Spec.exec (s : Spec) (ops : List Op) : Spec := ops.foldl (fun s op => (s.step op).1) s
+def Ram.exec (s : Ram) (ops : List Op) : Ram := ops.foldl (fun s op => (s.step op).1) s
+def Disk.exec (s : Disk) (ops : List Op) : Disk := ops.foldl (fun s op => (s.step op).1) s
+
 /-- The discipline shared by both back ends, the muxer's writers and the documented
     contract ("Finalize makes the file read-only"): writes and seeks address the most
     recently allocated part, nothing is written or allocated after `Finalize`,
-    `Finalize` is called once, readers name existing parts, and (for the RAM≡disk
-    statement) `Remove` has not been called. Decidable by one scan. -/
-def wfFrom : (nparts : Nat) → (fin : Bool) → List Op → Bool
+    `Finalize` is called once, readers name existing parts.  `Remove` is admitted only
+    when `allowRm` is set (the RAM refinement covers it; the RAM≡disk statement holds
+    "until Remove").  Decidable by one scan. -/
+def wfFrom (allowRm : Bool) : (nparts : Nat) → (fin : Bool) → List Op → Bool
   | _, _, [] => true
-  | n, fin, .newPart :: ops => !fin && wfFrom (n+1) fin ops
-  | n, fin, .write k _ :: ops => !fin && k + 1 == n && wfFrom n fin ops
-  | n, fin, .seek k _ _ :: ops => !fin && k + 1 == n && wfFrom n fin ops
-  | n, fin, .finalize :: ops => !fin && wfFrom n true ops
-  | _, _, .remove :: _ => false
-  | n, fin, .readPart k :: ops => decide (k < n) && wfFrom n fin ops
-  | n, fin, .readFile _ :: ops => wfFrom n fin ops
-  | n, fin, .size :: ops => wfFrom n fin ops
+  | n, fin, .newPart :: ops => !fin && wfFrom allowRm (n+1) fin ops
+  | n, fin, .write k _ :: ops => !fin && k + 1 == n && wfFrom allowRm n fin ops
+  | n, fin, .seek k _ _ :: ops => !fin && k + 1 == n && wfFrom allowRm n fin ops
+  | n, fin, .finalize :: ops => !fin && wfFrom allowRm n true ops
+  | n, fin, .remove :: ops => allowRm && wfFrom allowRm n fin ops
+  | n, fin, .readPart k :: ops => decide (k < n) && wfFrom allowRm n fin ops
+  | n, fin, .readFile _ :: ops => wfFrom allowRm n fin ops
+  | n, fin, .size :: ops => wfFrom allowRm n fin ops
 
-def WF (ops : List Op) : Prop := wfFrom 0 false ops = true
+/-- Disciplined, and `Remove` not called. -/
+def WF (ops : List Op) : Prop := wfFrom false 0 false ops = true
+
+/-- Disciplined; `Remove` may occur anywhere. -/
+def WFrm (ops : List Op) : Prop := wfFrom true 0 false ops = true
+
+instance (ops : List Op) : Decidable (WF ops) := inferInstanceAs (Decidable (_ = true))
+instance (ops : List Op) : Decidable (WFrm ops) := inferInstanceAs (Decidable (_ = true))
 
 end Hls.Storage
